@@ -73,6 +73,20 @@ def cases(tier, seed):
         thin2 = geom.wire([0.02 * lam_, 0.01 * lam_, (z0 + 0.5) * lam_], [0.25 * lam_, 0.1 * lam_, (z0 + 0.62) * lam_], 6, 5e-5 * lam_)
         for nm, ws in (('beside', [tube, thin1]), ('joined', [tube, thin2]), ('joined-thin-first', [thin2, tube]), ('all', [thin1, tube, thin2])):
             yield dict(env=env, f=f_, lam=lam_, wires=ws, name='tube-%s-%s' % (nm, env))
+    # one-segment stubs at the ends of a host wire (hat arms, end stubs), written from the free end inwards or outwards, listed
+    # directly after the host / after each other / before it; thin and thick radius
+    for env, z0 in (('free', 0.3), ('ideal', 0.1)):
+        for rr in (3e-5, 2e-4):
+            r_ = rr * lam_
+            a_, b_ = np.array([0., 0., z0 * lam_]), np.array([0.02 * lam_, 0.01 * lam_, (z0 + 0.3) * lam_])
+            sa, sb = a_ + np.array([0.04 * lam_, -0.02 * lam_, -0.01 * lam_]), b_ + np.array([-0.03 * lam_, 0.04 * lam_, 0.01 * lam_])
+            sb2 = b_ + np.array([0.04 * lam_, 0.03 * lam_, 0.005 * lam_])
+            host, hostr = geom.wire(a_, b_, 6, r_), geom.wire(b_, a_, 6, r_)
+            for nm, ws in (('in-in', [host, geom.wire(sa, a_, 1, r_), geom.wire(sb, b_, 1, r_)]), ('out-out', [host, geom.wire(a_, sa, 1, r_), geom.wire(b_, sb, 1, r_)]),
+                           ('in-out', [host, geom.wire(sb, b_, 1, r_), geom.wire(a_, sa, 1, r_)]), ('rev-in-in', [hostr, geom.wire(sb, b_, 1, r_), geom.wire(sa, a_, 1, r_)]),
+                           ('hat-in', [host, geom.wire(sb, b_, 1, r_), geom.wire(sb2, b_, 1, r_)]), ('hat-out', [host, geom.wire(b_, sb, 1, r_), geom.wire(b_, sb2, 1, r_)]),
+                           ('stubs-first', [geom.wire(sa, a_, 1, r_), geom.wire(sb, b_, 1, r_), host])):
+                yield dict(env=env, f=f_, lam=lam_, wires=ws, name='stub-%s-%s-r%g' % (nm, env, rr))
     for c in c03._lean(tier, seed):
         yield dict(env='ideal', f=c['f'], lam=c['lam'], pts=c['pts'], st=c['st'], name=c['name'])
     for c in c03._perp(tier, seed):            # exactly perpendicular sloping wires over ground (and in free space)
